@@ -218,7 +218,7 @@ def run(tier, seed, replay):
         b["steps"] = [st if (st.get("o") or {}).get("q") else {"a": st["a"]} for st in b["steps"]]
         return b
 
-    cap_paths = None if not big else 6000   # per graph; edges left uncovered are reported in the evidence
+    cap_paths = None if not big else 10000   # per graph; edges left uncovered are reported in the evidence
 
     def run_job(job):
         # one retry: on a crowded machine a JVM is occasionally killed (OOM killer) through no fault of the model
